@@ -16,15 +16,37 @@ type ModAnalysis struct {
 }
 
 type modInfo struct {
-	vars       map[string]bool
-	all        bool
-	allocVars  map[string]bool // state vars written only at freshly allocated refs
-	allocates  bool
-	rec        bool
+	vars        map[string]bool
+	all         bool
+	allocVars   map[string]bool         // state vars written only at freshly allocated refs
+	paramWrites map[int]map[string]bool // state vars written only at the object passed as parameter #i
+	allocates   bool
+	rec         bool
 }
 
 func newModInfo() *modInfo {
-	return &modInfo{vars: map[string]bool{}, allocVars: map[string]bool{}}
+	return &modInfo{vars: map[string]bool{}, allocVars: map[string]bool{}, paramWrites: map[int]map[string]bool{}}
+}
+
+func (mi *modInfo) addParamWrite(i int, v string) {
+	if mi.paramWrites[i] == nil {
+		mi.paramWrites[i] = map[string]bool{}
+	}
+	mi.paramWrites[i][v] = true
+}
+
+// allVars: every variable possibly written at pre-existing objects (parameter writes included)
+func (mi *modInfo) allVars() map[string]bool {
+	r := map[string]bool{}
+	for v := range mi.vars {
+		r[v] = true
+	}
+	for _, m := range mi.paramWrites {
+		for v := range m {
+			r[v] = true
+		}
+	}
+	return r
 }
 
 func (mi *modInfo) merge(o *modInfo) {
@@ -36,6 +58,11 @@ func (mi *modInfo) merge(o *modInfo) {
 	}
 	for v := range o.allocVars {
 		mi.allocVars[v] = true
+	}
+	for i, mm := range o.paramWrites {
+		for v := range mm {
+			mi.addParamWrite(i, v)
+		}
 	}
 	if o.allocates {
 		mi.allocates = true
@@ -88,10 +115,7 @@ func sortedKeys(m map[string]bool) []string {
 
 func (ma *ModAnalysis) FuncMods(fn *ssa.Function) ([]string, bool) {
 	mi := ma.info(fn)
-	all := map[string]bool{}
-	for v := range mi.vars {
-		all[v] = true
-	}
+	all := mi.allVars()
 	for v := range mi.allocVars {
 		all[v] = true
 	}
@@ -119,8 +143,9 @@ func (ma *ModAnalysis) LoopAllocOnly(fr *Frame, li *loopInfo) map[string]bool {
 		}
 	}
 	res := map[string]bool{}
+	av := mi.allVars()
 	for v := range mi.allocVars {
-		if !mi.vars[v] {
+		if !av[v] {
 			res[v] = true
 		}
 	}
@@ -137,10 +162,7 @@ func (ma *ModAnalysis) LoopMods(fr *Frame, li *loopInfo) ([]string, bool) {
 			ma.instr(fr.fn, ins, mi)
 		}
 	}
-	all := map[string]bool{}
-	for v := range mi.vars {
-		all[v] = true
-	}
+	all := mi.allVars()
 	for v := range mi.allocVars {
 		all[v] = true
 	}
@@ -224,6 +246,8 @@ func (ma *ModAnalysis) instr(fn *ssa.Function, ins ssa.Instruction, mi *modInfo)
 			if al, isAlloc := baseAlloc(i.Addr); isAlloc {
 				_ = al
 				mi.allocVars[v] = true
+			} else if pi, isParam := baseParam(fn, i.Addr); isParam {
+				mi.addParamWrite(pi, v)
 			} else {
 				mi.vars[v] = true
 			}
@@ -274,12 +298,42 @@ func (ma *ModAnalysis) instr(fn *ssa.Function, ins ssa.Instruction, mi *modInfo)
 	}
 }
 
+// baseParam: does the address derive directly from a parameter of fn (a field of the object passed in)?
+func baseParam(fn *ssa.Function, addr ssa.Value) (int, bool) {
+	for {
+		switch a := addr.(type) {
+		case *ssa.FieldAddr:
+			if p, ok := a.X.(*ssa.Parameter); ok {
+				for i, q := range fn.Params {
+					if q == p {
+						return i, true
+					}
+				}
+				return 0, false
+			}
+			addr = a.X
+			continue
+		case *ssa.IndexAddr:
+			if u, ok := a.X.(*ssa.UnOp); ok {
+				addr = u.X
+				continue
+			}
+			addr = a.X
+			continue
+		}
+		return 0, false
+	}
+}
+
 // baseAlloc: does the address derive directly from a struct Alloc in the same function?
 func baseAlloc(addr ssa.Value) (*ssa.Alloc, bool) {
 	switch a := addr.(type) {
 	case *ssa.FieldAddr:
 		if al, ok := a.X.(*ssa.Alloc); ok {
 			return al, true
+		}
+		if isFreshValue(a.X, 0) {
+			return nil, true
 		}
 	case *ssa.Alloc:
 		return a, true
@@ -289,6 +343,36 @@ func baseAlloc(addr ssa.Value) (*ssa.Alloc, bool) {
 		}
 	}
 	return nil, false
+}
+
+// isFreshValue: the value is an object allocated during the current call: an Alloc, or the result of a
+// constructor-like function all of whose returns yield a fresh allocation.
+func isFreshValue(v ssa.Value, depth int) bool {
+	switch x := v.(type) {
+	case *ssa.Alloc:
+		return true
+	case *ssa.Call:
+		if depth > 3 {
+			return false
+		}
+		callee, ok := x.Call.Value.(*ssa.Function)
+		if !ok || len(callee.Blocks) == 0 || callee.Signature.Results().Len() != 1 {
+			return false
+		}
+		n := 0
+		for _, b := range callee.Blocks {
+			for _, ins := range b.Instrs {
+				if r, ok := ins.(*ssa.Return); ok {
+					n++
+					if len(r.Results) != 1 || !isFreshValue(r.Results[0], depth+1) {
+						return false
+					}
+				}
+			}
+		}
+		return n > 0
+	}
+	return false
 }
 
 func (ma *ModAnalysis) call(fn *ssa.Function, cc *ssa.CallCommon, mi *modInfo) {
@@ -307,15 +391,55 @@ func (ma *ModAnalysis) call(fn *ssa.Function, cc *ssa.CallCommon, mi *modInfo) {
 			mi.all = true
 		}
 	case *ssa.Function:
-		ma.callee(callee, mi)
+		ma.calleeAt(fn, cc, callee, mi)
 	case *ssa.MakeClosure:
-		ma.callee(callee.Fn.(*ssa.Function), mi)
+		ma.calleeAt(fn, cc, callee.Fn.(*ssa.Function), mi)
 	default:
 		// dynamic call through a function value: a "callback <Type>" contract gives its effects;
 		// otherwise it is assumed not to touch tracked state (noted at VC generation)
 		key := "callback " + ex.w.typeName(cc.Value.Type())
 		if c, ok := ex.cs.Funcs[key]; ok && c.HasMod {
 			for _, v := range ex.staticModVars(c, nil, cc.Signature()) {
+				mi.vars[v] = true
+			}
+		}
+	}
+}
+
+// calleeAt merges the callee's effects at a concrete call site: writes through a callee parameter are
+// attributed to the argument (fresh allocation, caller parameter, or unknown object).
+func (ma *ModAnalysis) calleeAt(fn *ssa.Function, cc *ssa.CallCommon, callee *ssa.Function, mi *modInfo) {
+	tmp := newModInfo()
+	ma.callee(callee, tmp)
+	pw := tmp.paramWrites
+	tmp.paramWrites = map[int]map[string]bool{}
+	mi.merge(tmp)
+	if tmp.rec {
+		mi.rec = true
+	}
+	for idx, vars := range pw {
+		var arg ssa.Value
+		if idx < len(cc.Args) {
+			arg = cc.Args[idx]
+		}
+		for v := range vars {
+			if arg != nil && isFreshValue(arg, 0) {
+				mi.allocVars[v] = true
+				continue
+			}
+			switch a := arg.(type) {
+			case *ssa.Parameter:
+				done := false
+				for i, q := range fn.Params {
+					if q == a {
+						mi.addParamWrite(i, v)
+						done = true
+					}
+				}
+				if !done {
+					mi.vars[v] = true
+				}
+			default:
 				mi.vars[v] = true
 			}
 		}
@@ -405,7 +529,13 @@ func (ma *ModAnalysis) invoke(cc *ssa.CallCommon, mi *modInfo) {
 				m := ex.prog.MethodValue(sel)
 				if m != nil && m.Pkg == ex.pkg {
 					found = true
-					ma.callee(m, mi)
+					tmp := newModInfo()
+					ma.callee(m, tmp)
+					for v := range tmp.allVars() {
+						mi.vars[v] = true
+					}
+					tmp.paramWrites = map[int]map[string]bool{}
+					mi.merge(tmp)
 				}
 			}
 		}
